@@ -17,6 +17,8 @@ def main(tier, seed):
     # two processes of the same model with different inputs, both evicted, while a third one finishes: Cache::restore refills both rows in one batch
     for pol in ("fifo", "lifo"):
         jobs.append(("props.multi", "restore_batch", ("C13", pol, 60 if tier == "quick" else 600)))
+    # a process waiting on a timeout rule next to a finished (kept) or a running process, either one first in the cache: the tick reaches it
+    jobs.append(("props.multi", "tick_beside", ("C13", "fifo", 40)))
     c.run_jobs(jobs)
     return c.finish(
         rule="self-composition inside one path: each process alone (reference) and both together in one engine with a cache of capacity 1 / default, any live process evicted under "
